@@ -121,6 +121,27 @@ def r51(ctx):
         ctx.ob("R5.1", any(x[0] == "var" and x[1] == "htlc_value_sat" for x in subexprs(e_out)) or "htlc_value_sat" in a_out,
                f"{b.name}/fee-includes-htlcs", f"the fee computation ignores HTLC value: outputs=`{a_out[:160]}`",
                where=f"{b.file}:{ln}")
+    # the weight the fee rate is computed from grows with every HTLC output: expected_commitment_tx_weight(anchors, n) is
+    # base + n * per-HTLC weight, with n the whole HTLC count (no cap), and the caller passes offered + received
+    wf = p.fn(LS + "util::transaction_utils::expected_commitment_tx_weight")
+    ctx.touch(wf)
+    wv = fnview(ctx, wf, policy=False)
+    ret = wv.local_expr(0)
+    lin = atoms.linear(ret)
+    npar = wf.local_name(2)
+    coeff = {str(k[0]): v for k, v in lin[0].items()}
+    ok = coeff.get(npar, 0) >= 100 and lin[1] == 0 and len(coeff) == 2 and all(v in (1, coeff.get(npar)) for v in coeff.values())
+    ctx.ob("R5.1", ok, f"{wf.name}/linear-in-htlc-count",
+           f"expected_commitment_tx_weight is `{render(ret)[:160]}`: not base + count * per-HTLC weight over the whole HTLC count; an "
+           "under-estimated weight over-states the fee rate, a commitment below the minimum fee rate is accepted",
+           where=f"{wf.file}:{wf.line}", sample=f"base + {coeff.get(npar)} * {npar}")
+    for bi, ln, c in R.call_blocks(fvp, lambda n: n == wf.name):
+        ln_ = atoms.linear(fvp.expr(c.args[1]))
+        parts = sorted(str(k[0]) for k in ln_[0])
+        okc = ln_[1] == 0 and len(parts) == 2 and all(v == 1 for v in ln_[0].values()) and \
+            any("offered_htlcs" in x and x.startswith("len(") for x in parts) and any("received_htlcs" in x and x.startswith("len(") for x in parts)
+        ctx.ob("R5.1", okc, f"{b.name}/weight-counts-all-htlcs", f"the commitment weight is estimated for `{render(fvp.expr(c.args[1]))[:100]}` HTLCs "
+               "(expected offered + received)", where=f"{b.file}:{ln}", sample="len(offered_htlcs) + len(received_htlcs)")
     # validate_fee
     vf = p.fn(f"{SVT}::validate_fee")
     R.named_scenario_refused(ctx, "R5.1", vf, ["feerate_perkw < SimplePolicy.min_feerate_per_kw"], f"{vf.name}/below-min",
